@@ -89,6 +89,7 @@ type vWorld struct {
 	cpuPerNode int64
 	memPerNode int64
 	minTaintAge int64 // most negative taint age (seconds): a taint time in the future
+	symPodMem   bool  // pod memory requests symbolic (memory-bound workloads)
 }
 
 func newWorld(failBudget int) *vWorld {
